@@ -1,6 +1,7 @@
 package main
 
-// The chain-transaction path of the wallet (POST /build-chain-transactions): a spend_account action of
+// The chain-transaction path of the wallet (POST /build-chain-transactions, driven through the real handler
+// API.buildTxs via hooks/api/zz_verif_c27.go): a spend_account action of
 // BTM is funded by account.SpendAccountChain, which reserves as many outputs as the amount plus the merge
 // gas needs, merges them in batches of at most five per transaction (buildBtmTxChain) and hands the one
 // merged output to the final transaction. The enumerated dimension is the LAYOUT of the account's BTM
@@ -15,11 +16,12 @@ import (
 	"fmt"
 	"strings"
 
-	"github.com/bytom/bytom/account"
+	"github.com/bytom/bytom/api"
 	"github.com/bytom/bytom/blockchain/txbuilder"
 	"github.com/bytom/bytom/consensus"
 	"github.com/bytom/bytom/crypto"
 	"github.com/bytom/bytom/errors"
+	"github.com/bytom/bytom/net/http/httpjson"
 	"github.com/bytom/bytom/protocol/bc"
 	"github.com/bytom/bytom/protocol/bc/types"
 	"github.com/bytom/bytom/protocol/validation"
@@ -49,16 +51,22 @@ const (
 
 var chainModeName = []string{"all-outputs-exact", "all-outputs-with-change", "part-of-the-outputs"}
 
+// cspend is one spend_account action of a chain request together with the BTM outputs its account holds.
+type cspend struct {
+	Acct  int
+	Addrs []int // address of output i; output 0 has the largest amount, amounts strictly descending
+	Mode  int
+}
+
+// ccase is one /build-chain-transactions request: the spends in request order, then one control_address.
 type ccase struct {
-	Acct    int
-	Addrs   []int // address of output i; output 0 has the largest amount, amounts strictly descending
-	Mode    int
+	Spends  []cspend
 	Place   int
-	Signers int
+	Signers int // signer pair of the 2-of-3 account, -1 when it does not spend
 	Family  string
 }
 
-func (c ccase) amounts() []uint64 {
+func (c cspend) amounts() []uint64 {
 	n := len(c.Addrs)
 	out := make([]uint64, n)
 	for i := range out {
@@ -77,8 +85,8 @@ func mergeTxs(n int) int {
 	return t
 }
 
-// spendAmount is the amount of the spend_account action (payment + fee margin of the final transaction).
-func (c ccase) spendAmount() uint64 {
+// spendAmount is the amount of the spend_account action.
+func (c cspend) spendAmount() uint64 {
 	am := c.amounts()
 	sum := func(k int) (s uint64) {
 		for _, a := range am[:k] {
@@ -97,7 +105,7 @@ func (c ccase) spendAmount() uint64 {
 	return sum(k) - uint64(mergeTxs(k))*chainMergeFee - chainDust
 }
 
-func (c ccase) layout() string {
+func (c cspend) layout() string {
 	parts := make([]string, len(c.Addrs))
 	for i, a := range c.Addrs {
 		parts[i] = chainAddrName[a]
@@ -105,25 +113,43 @@ func (c ccase) layout() string {
 	return strings.Join(parts, " ")
 }
 
+// pay is the amount of the control_address action: everything spent minus one fee unit.
+func (c ccase) pay() uint64 {
+	var t uint64
+	for _, s := range c.Spends {
+		t += s.spendAmount()
+	}
+	return t - feeF
+}
+
 func (c ccase) String() string {
 	sg := "-"
 	if c.Signers >= 0 {
 		sg = fmt.Sprint(signerPairs[c.Signers])
 	}
-	return fmt.Sprintf("chain build: account %s holds %d BTM outputs (largest first) on addresses [%s], spend_account %d (%s) + control-address(BTM,%d,external), placement %s, multisig-signers %s",
-		acctName[c.Acct], len(c.Addrs), c.layout(), c.spendAmount(), chainModeName[c.Mode], c.spendAmount()-feeF, placeName[c.Place], sg)
+	var sp []string
+	for _, s := range c.Spends {
+		sp = append(sp, fmt.Sprintf("spend_account(%s, BTM, %d) [account holds %d BTM outputs (largest first) on addresses [%s], %s]", acctName[s.Acct], s.spendAmount(), len(s.Addrs), s.layout(), chainModeName[s.Mode]))
+	}
+	return fmt.Sprintf("build-chain-transactions request: %s, control_address(BTM, %d, external); placement %s, multisig-signers %s",
+		strings.Join(sp, ", "), c.pay(), placeName[c.Place], sg)
 }
 
 func (c ccase) describe() map[string]interface{} {
-	d := map[string]interface{}{"path": "SpendAccountChain", "account": acctName[c.Acct], "output_amounts": c.amounts(), "output_addresses": c.layout(),
-		"spend_amount": c.spendAmount(), "mode": chainModeName[c.Mode], "placement": placeName[c.Place], "family": c.Family}
+	var sp []map[string]interface{}
+	for _, s := range c.Spends {
+		sp = append(sp, map[string]interface{}{"account": acctName[s.Acct], "output_amounts": s.amounts(), "output_addresses": s.layout(), "spend_amount": s.spendAmount(), "mode": chainModeName[s.Mode]})
+	}
+	d := map[string]interface{}{"path": "API.buildTxs", "spends_in_request_order": sp, "control_address_amount": c.pay(), "placement": placeName[c.Place], "family": c.Family}
 	if c.Signers >= 0 {
 		d["multisig_signers"] = signerPairs[c.Signers]
 	}
 	return d
 }
 
-// chainCases enumerates the layouts.
+// chainCases enumerates the requests.
+//
+// One spending account:
 //
 //	family "4addr": every assignment of {ext/1, ext/2, chg/1, chg/2} to n outputs, n = 2..nFour
 //	family "2addr": every assignment of {ext/1, chg/1} to n outputs, n = nFour+1..nTwo
@@ -135,6 +161,11 @@ func (c ccase) describe() map[string]interface{} {
 // accounts on every non-deep layout (thorough). Layouts of two outputs are also run on unconfirmed-only
 // outputs and with every signer pair of the 2-of-3 account. Quick runs the deep family for the 1-of-1
 // account only.
+//
+// Two spending accounts in one request (family "two-accounts"): both request orders x every pair of
+// per-account layouts out of: every assignment of {ext/1, chg/1} to n = 1..twoMax outputs (one output = the
+// account needs no merge transaction), the alternating layout of 6 outputs (two merge transactions) and,
+// thorough, of 14 outputs (three merge levels).
 func chainCases(run *ev.Run) ([]ccase, map[string]int) {
 	nFour := run.Pick(3, 5)
 	nTwo := run.Pick(6, 10)
@@ -163,27 +194,27 @@ func chainCases(run *ev.Run) ([]ccase, map[string]int) {
 				}
 				for _, pl := range places {
 					for _, sg := range signerChoices {
-						cases = append(cases, ccase{Acct: a, Addrs: append([]int{}, addrs...), Mode: mode, Place: pl, Signers: sg, Family: family})
+						cases = append(cases, ccase{Spends: []cspend{{Acct: a, Addrs: append([]int{}, addrs...), Mode: mode}}, Place: pl, Signers: sg, Family: family})
 					}
 				}
 			}
 		}
 	}
-	var rec func(family string, alpha []int, cur []int, n int)
-	rec = func(family string, alpha []int, cur []int, n int) {
+	var rec func(alpha []int, cur []int, n int, f func([]int))
+	rec = func(alpha []int, cur []int, n int, f func([]int)) {
 		if len(cur) == n {
-			emit(family, cur, 2)
+			f(append([]int{}, cur...))
 			return
 		}
 		for _, a := range alpha {
-			rec(family, alpha, append(cur, a), n)
+			rec(alpha, append(cur, a), n, f)
 		}
 	}
 	for n := 2; n <= nFour; n++ {
-		rec("4addr", chainAddrs, nil, n)
+		rec(chainAddrs, nil, n, func(l []int) { emit("4addr", l, 2) })
 	}
 	for n := nFour + 1; n <= nTwo; n++ {
-		rec("2addr", []int{0, 3}, nil, n)
+		rec([]int{0, 3}, nil, n, func(l []int) { emit("2addr", l, 2) })
 	}
 	for n := deepFrom; n <= deepTo; n++ {
 		for _, base := range []int{0, 3} {
@@ -197,6 +228,32 @@ func chainCases(run *ev.Run) ([]ccase, map[string]int) {
 					addrs[odd] = other
 				}
 				emit("deep", addrs, deepAccts)
+			}
+		}
+	}
+
+	// two spending accounts
+	var layouts [][]int
+	for n := 1; n <= run.Pick(2, 3); n++ {
+		rec([]int{0, 3}, nil, n, func(l []int) { layouts = append(layouts, l) })
+	}
+	alternating := func(n int) []int {
+		l := make([]int, n)
+		for i := range l {
+			l[i] = []int{0, 3}[i%2]
+		}
+		return l
+	}
+	layouts = append(layouts, alternating(6))
+	if run.Thorough() {
+		layouts = append(layouts, alternating(14))
+	}
+	for _, first := range []int{acctSingle, acctMulti} {
+		for _, l1 := range layouts {
+			for _, l2 := range layouts {
+				fam["two-accounts"]++
+				cases = append(cases, ccase{Spends: []cspend{{Acct: first, Addrs: l1, Mode: chainAllChange}, {Acct: 1 - first, Addrs: l2, Mode: chainAllChange}},
+					Place: placeConfirmed, Signers: 0, Family: "two-accounts"})
 			}
 		}
 	}
@@ -225,7 +282,8 @@ func witnessOpens(prog []byte, args [][]byte) (bool, string) {
 	return true, ""
 }
 
-// runChain builds, signs and validates one chain case and applies the oracle.
+// runChain sends one request to the real handler of POST /build-chain-transactions (API.buildTxs), signs and
+// validates every returned template in order and applies the oracle.
 func (w *world) runChain(c ccase) (res *caseResult) {
 	res = &caseResult{}
 	stage := "funding"
@@ -239,65 +297,59 @@ func (w *world) runChain(c ccase) (res *caseResult) {
 	}()
 
 	var plan []planned
-	for i, amt := range c.amounts() {
-		plan = append(plan, planned{wutxo: wutxo{Acct: c.Acct, Src: srcBTM, Amount: amt, Mature: true}, addr: c.Addrs[i]})
+	spendAmt := map[int]uint64{}
+	spendOf := map[int]cspend{}
+	for _, s := range c.Spends {
+		for i, amt := range s.amounts() {
+			plan = append(plan, planned{wutxo: wutxo{Acct: s.Acct, Src: srcBTM, Amount: amt, Mature: true}, addr: s.Addrs[i]})
+		}
+		plan = append(plan, planned{wutxo: wutxo{Acct: s.Acct, Src: srcBTM, Amount: 50 * unitB, Mature: false}, immature: true, addr: 2})
+		spendAmt[s.Acct] = s.spendAmount()
+		spendOf[s.Acct] = s
 	}
-	plan = append(plan, planned{wutxo: wutxo{Acct: c.Acct, Src: srcBTM, Amount: 50 * unitB, Mature: false}, immature: true, addr: 2})
 	if err := w.install(plan, c.Place); err != nil {
 		ev.Fatal("funding: %v", err)
 	}
-	spendAmt := c.spendAmount()
-	pay := spendAmt - feeF
-	btm := consensus.BTMAssetID.String()
-	decode := func(dec func([]byte) (txbuilder.Action, error), m map[string]interface{}) txbuilder.Action {
-		raw, err := json.Marshal(m)
-		if err != nil {
-			ev.Fatal("actions: %v", err)
-		}
-		act, err := dec(raw)
-		if err != nil {
-			ev.Fatal("decoding %s: %v", raw, err)
-		}
-		return act
-	}
-	actions := account.MergeSpendAction([]txbuilder.Action{
-		decode(w.mgr.DecodeSpendAction, map[string]interface{}{"type": "spend_account", "account_id": w.accts[c.Acct].ID, "asset_id": btm, "amount": spendAmt, "use_unconfirmed": c.Place != placeConfirmed}),
-		decode(txbuilder.DecodeControlAddressAction, map[string]interface{}{"type": "control_address", "asset_id": btm, "amount": pay, "address": w.g.extAddr}),
-	})
+	pay := c.pay()
 
-	// ---- what API.buildTxs does with the decoded actions
+	// ---- the request as a client sends it: JSON text, read the way the API server reads a body
+	btm := consensus.BTMAssetID.String()
+	var acts []map[string]interface{}
+	for _, s := range c.Spends {
+		acts = append(acts, map[string]interface{}{"type": "spend_account", "account_id": w.accts[s.Acct].ID, "asset_id": btm, "amount": s.spendAmount(), "use_unconfirmed": c.Place != placeConfirmed})
+	}
+	acts = append(acts, map[string]interface{}{"type": "control_address", "asset_id": btm, "amount": pay, "address": w.g.extAddr})
+	body, err := json.Marshal(map[string]interface{}{"actions": acts})
+	if err != nil {
+		ev.Fatal("request: %v", err)
+	}
+	req := &api.BuildRequest{}
+	if err := httpjson.Read(bytes.NewReader(body), req); err != nil {
+		ev.Fatal("request %s not readable: %v", body, err)
+	}
+
 	stage = "build"
 	ctx := context.Background()
-	builder := txbuilder.NewBuilder(farFuture)
-	defer builder.Rollback() // releases the reservations
-	var tpls []*txbuilder.Template
-	for _, act := range actions {
-		var err error
-		if act.ActionType() == "spend_account" {
-			tpls, err = account.SpendAccountChain(ctx, builder, act)
-		} else {
-			err = act.Build(ctx, builder)
-		}
-		if err != nil {
-			fail("chain-build-fails-"+slug(errors.Root(err).Error()), "building a fundable chain request failed in action "+act.ActionType()+": "+err.Error(), nil)
-			return
-		}
-	}
-	last, _, err := builder.Build()
+	tpls, err := w.api.VerifBuildTxs(ctx, req)
 	if err != nil {
-		fail("chain-build-fails-"+slug(errors.Root(err).Error()), "building the final transaction failed: "+err.Error(), nil)
+		fail("chain-build-fails-"+slug(errors.Root(err).Error()), "API.buildTxs failed on a fundable chain request: "+err.Error(), string(body))
 		return
 	}
-	tpls = append(tpls, last)
+	if len(tpls) == 0 {
+		fail("chain-build-returns-nothing", "API.buildTxs returned no template", string(body))
+		return
+	}
+	last := tpls[len(tpls)-1]
 
 	// ---- sign every template (as JSON copies too: the API returns the templates and takes them back)
 	stage = "sign"
 	var pws []string
-	if c.Acct == acctSingle {
-		pws = []string{w.g.keys[0].pw}
-	} else {
+	if _, ok := spendOf[acctSingle]; ok {
+		pws = append(pws, w.g.keys[0].pw)
+	}
+	if _, ok := spendOf[acctMulti]; ok {
 		p := signerPairs[c.Signers]
-		pws = []string{w.g.keys[1+p[0]].pw, w.g.keys[1+p[1]].pw}
+		pws = append(pws, w.g.keys[1+p[0]].pw, w.g.keys[1+p[1]].pw)
 	}
 	sign := w.g.memSign(&res.Sigs)
 	for i, tpl := range tpls {
@@ -336,17 +388,20 @@ func (w *world) runChain(c ccase) (res *caseResult) {
 		}
 	}
 
-	// ---- oracle over the whole chain
+	// ---- oracle over the returned transactions, in the order returned
 	stage = "oracle"
 	type prodOut struct {
 		amount uint64
 		prog   []byte
 		tx     int
+		acct   int
 		spent  bool
 	}
 	produced := map[bc.Hash]*prodOut{}
 	walletSpent := map[bc.Hash]bool{}
-	var walletIn, mergeFees uint64
+	walletSpentOf := map[int]int{}
+	var walletIn, mergeFees, totalChange uint64
+	unreturned := false
 	blk := types.MapBlock(&types.Block{BlockHeader: types.BlockHeader{Version: 1, Height: w.g.height + 1}})
 	txDesc := []string{}
 	rejected := 0
@@ -364,6 +419,7 @@ func (w *world) runChain(c ccase) (res *caseResult) {
 		isFinal := ti == len(tpls)-1
 		name := fmt.Sprintf("transaction %d/%d", ti+1, len(tpls))
 		var in, out uint64
+		inOf := map[int]uint64{}
 		nMerged := 0
 		ins := []string{}
 		for i, inp := range tx.Inputs {
@@ -374,6 +430,7 @@ func (w *world) runChain(c ccase) (res *caseResult) {
 			}
 			var amount uint64
 			var prog []byte
+			acct := -1
 			kind := ""
 			if rec := w.utxos[id]; rec != nil {
 				if walletSpent[id] {
@@ -381,13 +438,14 @@ func (w *world) runChain(c ccase) (res *caseResult) {
 					continue
 				}
 				walletSpent[id] = true
+				walletSpentOf[rec.Acct]++
 				if !rec.Mature {
 					fail("chain-input-immature", fmt.Sprintf("%s input %d spends an immature output", name, i), nil)
 				}
-				if rec.Acct != c.Acct || rec.Src != srcBTM {
+				if _, ok := spendOf[rec.Acct]; !ok || rec.Src != srcBTM {
 					fail("chain-input-from-unrequested-source", fmt.Sprintf("%s input %d spends an output of another source", name, i), nil)
 				}
-				amount, prog = rec.Amount, rec.Program
+				amount, prog, acct = rec.Amount, rec.Program, rec.Acct
 				walletIn += rec.Amount
 				kind = "wallet"
 			} else if p := produced[id]; p != nil {
@@ -396,15 +454,31 @@ func (w *world) runChain(c ccase) (res *caseResult) {
 					continue
 				}
 				p.spent = true
-				amount, prog = p.amount, p.prog
+				amount, prog, acct = p.amount, p.prog, p.acct
 				nMerged++
 				if level[p.tx]+1 > level[ti] {
 					level[ti] = level[p.tx] + 1
 				}
 				kind = fmt.Sprintf("merged-by-tx%d", p.tx+1)
 			} else {
-				fail("chain-input-unknown-output", fmt.Sprintf("%s input %d spends %s, neither a wallet output nor an output of an earlier transaction of the chain", name, i, id.String()), nil)
-				continue
+				// not a wallet output and not an output of a RETURNED earlier transaction: the client cannot
+				// submit this transaction. An input locked to a program of a spending account is the output
+				// of a merge transaction that was built (and whose inputs stay reserved) but not returned.
+				owner, own := w.progOwner[hex.EncodeToString(inp.ControlProgram())]
+				_, spending := spendOf[owner]
+				if own && spending {
+					unreturned = true
+					key := "chain-tx-spends-output-of-unreturned-merge-tx"
+					if isFinal {
+						key = "chain-final-tx-spends-output-of-unreturned-merge-tx"
+					}
+					fail(key, fmt.Sprintf("%s input %d spends output %s (%d BTM-neu, locked to address %s of account %s): neither a wallet output nor an output of one of the %d returned transactions - the merge transaction that creates it was not returned", name, i, id.String(), inp.Amount(), w.addrOf(inp.ControlProgram()), acctName[owner], len(tpls)), nil)
+					amount, prog, acct = inp.Amount(), inp.ControlProgram(), owner
+					kind = "UNRETURNED"
+				} else {
+					fail("chain-input-unknown-output", fmt.Sprintf("%s input %d spends %s, neither a wallet output nor an output of an earlier returned transaction", name, i, id.String()), nil)
+					continue
+				}
 			}
 			if _, ok := inp.TypedInput.(*types.SpendInput); !ok {
 				fail("chain-input-type-mismatch", fmt.Sprintf("%s input %d is a %T", name, i, inp.TypedInput), nil)
@@ -419,16 +493,17 @@ func (w *world) runChain(c ccase) (res *caseResult) {
 					what = "merged output of an earlier chain transaction"
 					key = "chain-witness-does-not-open-merged-output"
 				}
-				fail(key, fmt.Sprintf("%s input %d spends a %s locked to the account's address %s: %s (signing path / witness derived for another address)", name, i, what, w.addrOf(c.Acct, prog), why), nil)
+				fail(key, fmt.Sprintf("%s input %d spends a %s locked to the account's address %s: %s (signing path / witness derived for another address)", name, i, what, w.addrOf(prog), why), nil)
 			}
 			in += amount
-			ins = append(ins, fmt.Sprintf("%s:%d@%s", kind, amount, w.addrOf(c.Acct, prog)))
+			inOf[acct] += amount
+			ins = append(ins, fmt.Sprintf("%s:%d@%s/%s", kind, amount, []string{"single", "multi"}[acct], w.addrOf(prog)))
 		}
 		if level[ti] > maxLevel {
 			maxLevel = level[ti]
 		}
 		outs := []string{}
-		var change uint64
+		changeOf := map[int]uint64{}
 		paid := 0
 		for oi, o := range tx.Outputs {
 			if *o.AssetId != *consensus.BTMAssetID {
@@ -436,7 +511,7 @@ func (w *world) runChain(c ccase) (res *caseResult) {
 				continue
 			}
 			out += o.Amount
-			outs = append(outs, fmt.Sprintf("%d->%s", o.Amount, w.addrOf(c.Acct, o.ControlProgram)))
+			outs = append(outs, fmt.Sprintf("%d->%s", o.Amount, w.addrOf(o.ControlProgram)))
 			if _, isVote := o.TypedOutput.(*types.VoteOutput); isVote {
 				fail("chain-output-type-mismatch", fmt.Sprintf("%s output %d is a vote output", name, oi), nil)
 			}
@@ -445,7 +520,7 @@ func (w *world) runChain(c ccase) (res *caseResult) {
 				continue
 			}
 			owner, ok := w.progOwner[hex.EncodeToString(o.ControlProgram)]
-			if !ok || owner != c.Acct {
+			if _, spendsHere := inOf[owner]; !ok || !spendsHere {
 				key := "chain-merge-output-to-foreign-program"
 				if isFinal {
 					key = "change-to-foreign-program"
@@ -453,13 +528,14 @@ func (w *world) runChain(c ccase) (res *caseResult) {
 						key = "requested-output-amount-differs"
 					}
 				}
-				fail(key, fmt.Sprintf("%s output %d (%d) does not pay a program of the spending account", name, oi, o.Amount), nil)
+				fail(key, fmt.Sprintf("%s output %d (%d) does not pay a program of an account whose outputs the transaction spends", name, oi, o.Amount), nil)
 				continue
 			}
 			if isFinal {
-				change += o.Amount
+				changeOf[owner] += o.Amount
+				totalChange += o.Amount
 			} else {
-				produced[*tx.OutputID(oi)] = &prodOut{amount: o.Amount, prog: o.ControlProgram, tx: ti}
+				produced[*tx.OutputID(oi)] = &prodOut{amount: o.Amount, prog: o.ControlProgram, tx: ti, acct: owner}
 			}
 		}
 		if in < out {
@@ -473,8 +549,10 @@ func (w *world) runChain(c ccase) (res *caseResult) {
 			if paid != 1 {
 				fail("requested-output-missing", fmt.Sprintf("%s: no output of %d to the recipient", name, pay), nil)
 			}
-			if in-change != spendAmt {
-				fail("change-amount-mismatch", fmt.Sprintf("%s: inputs %d - change %d != spent amount %d", name, in, change, spendAmt), nil)
+			for _, s := range c.Spends {
+				if inOf[s.Acct]-changeOf[s.Acct] != spendAmt[s.Acct] {
+					fail("change-amount-mismatch", fmt.Sprintf("%s: account %s: inputs %d - change %d != spent amount %d", name, acctName[s.Acct], inOf[s.Acct], changeOf[s.Acct], spendAmt[s.Acct]), nil)
+				}
 			}
 			if in-out != feeF {
 				fail("fee-differs-from-requested-margin", fmt.Sprintf("%s: inputs %d - outputs %d = %d, the actions leave %d", name, in, out, in-out, feeF), nil)
@@ -483,6 +561,9 @@ func (w *world) runChain(c ccase) (res *caseResult) {
 			mergeFees += in - out
 			if len(tx.Inputs) > chainMaxInputs {
 				fail("chain-merge-tx-has-too-many-inputs", fmt.Sprintf("%s has %d inputs", name, len(tx.Inputs)), nil)
+			}
+			if len(inOf) > 1 {
+				fail("chain-merge-tx-mixes-accounts", name+" spends outputs of two accounts", nil)
 			}
 			if in-out != chainMergeFee {
 				fail("chain-merge-fee-unexpected", fmt.Sprintf("%s pays %d, a merge transaction pays %d", name, in-out, chainMergeFee), nil)
@@ -502,20 +583,24 @@ func (w *world) runChain(c ccase) (res *caseResult) {
 			fail("validator-fee-differs", fmt.Sprintf("%s: validator reports BTM value %d, inputs - outputs = %d", name, gas.BTMValue, in-out), nil)
 		}
 		txDesc = append(txDesc, fmt.Sprintf("tx%d in[%s] out[%s] fee=%d", ti+1, strings.Join(ins, " "), strings.Join(outs, " "), in-out))
-		if isFinal {
-			if want := spendAmt + change + mergeFees; walletIn != want {
-				fail("chain-value-not-conserved", fmt.Sprintf("wallet outputs spent %d != payment+fee %d + change %d + merge fees %d", walletIn, spendAmt, change, mergeFees), nil)
-			}
-		}
 	}
 	for _, p := range produced {
 		if !p.spent {
 			fail("chain-merged-output-left-unspent", fmt.Sprintf("the output of merge transaction %d (%d) is spent by no later transaction of the chain", p.tx+1, p.amount), nil)
 		}
 	}
-	if c.Mode != chainPartial {
-		if len(walletSpent) != len(c.Addrs) {
-			fail("chain-unexpected-selection", fmt.Sprintf("all %d outputs are needed, %d were spent", len(c.Addrs), len(walletSpent)), nil)
+	if !unreturned { // with a missing merge transaction the sums below only repeat that finding
+		var spentTotal uint64
+		for _, a := range spendAmt {
+			spentTotal += a
+		}
+		if want := spentTotal + totalChange + mergeFees; walletIn != want {
+			fail("chain-value-not-conserved", fmt.Sprintf("wallet outputs spent %d != payment+fee %d + change %d + merge fees %d", walletIn, spentTotal, totalChange, mergeFees), nil)
+		}
+		for _, s := range c.Spends {
+			if s.Mode != chainPartial && walletSpentOf[s.Acct] != len(s.Addrs) {
+				fail("chain-unexpected-selection", fmt.Sprintf("account %s: all %d outputs are needed, %d were spent", acctName[s.Acct], len(s.Addrs), walletSpentOf[s.Acct]), nil)
+			}
 		}
 	}
 
@@ -523,24 +608,26 @@ func (w *world) runChain(c ccase) (res *caseResult) {
 	if rejected > 0 {
 		verdict = "rejected"
 	}
-	hasChange := 0
-	if n := len(last.Transaction.Outputs); n > 1 {
-		hasChange = n - 1
+	if unreturned {
+		verdict += " INCOMPLETE(merge tx not returned)"
 	}
-	res.Outcome = fmt.Sprintf("chain %s merge-txs=%d merge-levels=%d final-change-outputs=%d", verdict, len(tpls)-1, maxLevel, hasChange)
+	nChange := len(last.Transaction.Outputs) - 1
+	res.Outcome = fmt.Sprintf("chain accounts=%d %s merge-txs=%d merge-levels=%d final-change-outputs=%d", len(c.Spends), verdict, len(tpls)-1, maxLevel, nChange)
 	res.Nontrivial = len(tpls) >= 2
-	res.Summary = map[string]interface{}{"transactions": txDesc, "final_tx_id": last.Transaction.ID.String()}
+	res.Summary = map[string]interface{}{"request": string(body), "returned_transactions": txDesc, "final_tx_id": last.Transaction.ID.String()}
 	return res
 }
 
-// addrOf names the account address a program belongs to.
-func (w *world) addrOf(acct int, prog []byte) string {
-	for i, cp := range w.progs[acct] {
-		if bytes.Equal(cp.ControlProgram, prog) {
-			if n, ok := chainAddrName[i]; ok {
-				return n
+// addrOf names the address a program belongs to.
+func (w *world) addrOf(prog []byte) string {
+	for a := 0; a < 2; a++ {
+		for i, cp := range w.progs[a] {
+			if bytes.Equal(cp.ControlProgram, prog) {
+				if n, ok := chainAddrName[i]; ok {
+					return n
+				}
+				return fmt.Sprintf("ext/%d", cp.KeyIndex)
 			}
-			return fmt.Sprintf("ext/%d", cp.KeyIndex)
 		}
 	}
 	if bytes.Equal(prog, w.g.extProg) {
